@@ -105,9 +105,27 @@ def gen_call(rng, callee, params, vars_, wrong=None, modes_from=None, loopvar=No
     return {"k": "call", "prog": callee["name"], "kwargs": kws, "modes": ms, "style": rng.choice([1, 2])}
 
 
-def spell(rng, from_dir, target, allow_abs=True):
+def spell(rng, from_dir, target, allow_abs=True, fs=None):
     k = rng.random()
     rel = posixpath.relpath(target, from_dir or ".")
+    if fs is not None and fs.links and rng.random() < 0.25:
+        # a spelling that goes through a symbolic link to a directory (and back out of it)
+        for lp, tdir in sorted(fs.links.items()):
+            rel_link = posixpath.relpath(lp, from_dir or ".")
+            parent = posixpath.dirname(tdir)
+            cand = None
+            if target.startswith(tdir + "/"):
+                cand = rel_link + "/" + posixpath.relpath(target, tdir)
+            elif parent and target.startswith(parent + "/"):
+                cand = rel_link + "/../" + posixpath.relpath(target, parent)
+            elif not parent:
+                cand = rel_link + "/../" + target
+            if cand:
+                try:
+                    if M.walk(fs, from_dir, cand) == target:
+                        return cand
+                except M.Unknown:
+                    pass
     if allow_abs and k < 0.2:
         return "<ROOT>/" + target
     if k < 0.35:
@@ -175,6 +193,12 @@ def decoy_text(rng, name, nmodes, same_arity):
 def gen_plan(rng):
     fs = M.FS()
     steps = []
+    link = None
+    if rng.random() < 0.3:
+        # one symbolic link to a directory; file names and include spellings may go through it
+        link = {"path": rng.choice(["lnk", "other/lnk"]), "target": rng.choice(["lib/deep", "app/sub", "x/y"])}
+        fs.links[link["path"]] = link["target"]
+        steps.append({"op": "symlink", "path": link["path"], "target": link["target"]})
     cfg = {"nlibs": rng.randint(1, 4), "nest": rng.random() < 0.6, "faults": rng.random() < 0.35,
            "decoys": rng.random() < 0.8, "edits": rng.random() < 0.3, "planted": rng.random() < 0.12}
     libs = []      # {"name","path","depth"}
@@ -194,11 +218,11 @@ def gen_plan(rng):
         params = rng.sample(PARAMS, rng.choice([0, 0, 1, 1, 2, 3]))
         modes_pool = list(rng.choice(MODE_SETS))
         callees = [M.expand_file(fs, l["path"]) for l in nested]
-        includes = [spell(rng, posixpath.dirname(path), l["path"]) for l in nested]
+        includes = [spell(rng, posixpath.dirname(path), l["path"], fs=fs) for l in nested]
         if nested and rng.random() < 0.15:
             includes.append(includes[0])                                  # repeated include line
         if nested and rng.random() < 0.15:
-            includes.append(spell(rng, posixpath.dirname(path), nested[0]["path"]))   # second spelling
+            includes.append(spell(rng, posixpath.dirname(path), nested[0]["path"], fs=fs))   # second spelling
         body = gen_body(rng, fs, params, callees, modes_pool)
         prog = {"name": name, "target": None, "includes": includes, "comments": rng.random() < 0.4,
                 "body": body}
@@ -207,15 +231,17 @@ def gen_plan(rng):
         steps.append({"op": "write", "path": path, "prog": prog})
     # main file
     maindir = rng.choice(DIRS)
+    if link and rng.random() < 0.6:
+        maindir = rng.choice([link["target"], posixpath.dirname(link["target"])])
     mainpath = posixpath.join(maindir, "main.xbb")
     direct = rng.sample(libs, rng.randint(1, len(libs)))
     if rng.random() < 0.7 and libs[-1] not in direct:
         direct.append(libs[-1])        # the deepest library is usually included
-    includes = [spell(rng, maindir, l["path"]) for l in direct]
+    includes = [spell(rng, maindir, l["path"], fs=fs) for l in direct]
     if rng.random() < 0.2:
         includes.append(includes[0])
     if rng.random() < 0.2:
-        includes.append(spell(rng, maindir, direct[0]["path"]))
+        includes.append(spell(rng, maindir, direct[0]["path"], fs=fs))
     callees = [M.expand_file(fs, l["path"]) for l in direct]
     body = gen_body(rng, fs, [], callees, list(range(0, 8)), top=True)
     if cfg["planted"]:
@@ -233,7 +259,7 @@ def gen_plan(rng):
         for path, prog in list(fs.files.items()):
             for sp in prog["includes"]:
                 try:
-                    tgt = M.resolve(posixpath.dirname(path), sp)
+                    tgt = M.resolve(fs, posixpath.dirname(path), sp)
                     ex = M.expand_file(fs, tgt)
                 except Exception:
                     continue
@@ -251,7 +277,13 @@ def gen_plan(rng):
         rng.shuffle(cands)
         for (p, name, nm) in cands[:8]:
             p = posixpath.normpath(p)
-            if p.startswith("..") or p in fs.files or p in (".", ""):
+            if p.startswith("..") or p in (".", ""):
+                continue
+            try:
+                p = M.walk(fs, "", p)       # where a file written under that name really lands
+            except M.Unknown:
+                continue
+            if p in fs.files or p in (".", "") or p in fs.links:
                 continue
             text = decoy_text(rng, name, nm, same_arity=rng.random() < 0.6)
             fs.files[p] = ("text", text)
@@ -281,7 +313,7 @@ def gen_plan(rng):
             m2["includes"] = []
             for sp in fs.files[mainpath]["includes"]:
                 try:
-                    m2["includes"].append("<ROOT>/" + M.resolve(maindir, sp))
+                    m2["includes"].append("<ROOT>/" + M.resolve(fs, maindir, sp))
                 except M.Unknown:
                     m2["includes"].append(sp)
             st.update({"op": "loads", "prog": m2})
@@ -289,6 +321,19 @@ def gen_plan(rng):
             st.update({"op": "load", "path": mainpath, "style": style})
             if style == "rel" and rng.random() < 0.3:
                 st["dot"] = True
+            if link and rng.random() < 0.6:
+                # name the main file through the link: <link>/main.xbb or <link>/../main.xbb
+                name = None
+                if maindir == link["target"]:
+                    name = link["path"] + "/main.xbb"
+                elif maindir == posixpath.dirname(link["target"]):
+                    name = link["path"] + "/../main.xbb"
+                if name:
+                    try:
+                        if M.walk(fs, "", name) == mainpath:
+                            st["name"] = name
+                    except M.Unknown:
+                        pass
         if cfg["faults"] and rng.random() < 0.6:
             files = [p for p, v in fs.files.items() if isinstance(v, dict)]
             if style == "loads":
@@ -408,6 +453,10 @@ def run(plan, ctx):
         if op == "chdir":
             cwd = st["path"]
             continue
+        if op == "symlink":
+            fs.links[posixpath.normpath(st["path"])] = posixpath.normpath(st["target"])
+            bump("symlinks")
+            continue
         if op not in child.LOAD_OPS:
             continue
         ev = by_i[i]
@@ -417,8 +466,19 @@ def run(plan, ctx):
         if op == "loads":
             mainpath = "__loads__/main.xbb"
             f.files[mainpath] = st["prog"]
+        elif st.get("name"):
+            try:
+                mainpath = M.walk(f, "", st["name"])
+            except M.Unknown:
+                bump("model_unknown")
+                continue
+            bump("probe:main_named_through_symlink")
         else:
             mainpath = posixpath.normpath(st["path"])
+        if isinstance(f.files.get(mainpath), dict) and f.links and \
+                any(any(lp.split("/")[-1] in sp.split("/") for lp in f.links) for p2 in f.files.values()
+                    if isinstance(p2, dict) for sp in p2["includes"]):
+            bump("probe:include_spelled_through_symlink")
         fault = st.get("fault")
         fired = bool(ev.get("fired"))
         want_free = M.expected(f, mainpath)
@@ -521,7 +581,7 @@ def _depth(fs, path, seen=()):
     d = 0
     for sp in prog["includes"]:
         try:
-            t = M.resolve(posixpath.dirname(path), sp)
+            t = M.resolve(fs, posixpath.dirname(path), sp)
         except M.Unknown:
             continue
         d = max(d, 1 + _depth(fs, t, seen + (path,)))
@@ -532,7 +592,7 @@ def _unsorted_modes(fs, mainpath):
     prog = fs.files.get(mainpath)
     for sp in prog["includes"]:
         try:
-            ex = M.expand_file(fs, M.resolve(posixpath.dirname(mainpath), sp))
+            ex = M.expand_file(fs, M.resolve(fs, posixpath.dirname(mainpath), sp))
         except Exception:
             continue
         if list(set(ex["modes"])) != sorted(ex["modes"]):
